@@ -99,3 +99,36 @@ def sentinel_arith(ctx, r):
                                f"{f['name']}: `{q.show(y)[:80]}` uses `{side['p']}`, which starts as the MAX sentinel of a min-reduction and keeps that value when nothing is reduced (e.g. a multi-line string whose later lines are all empty): the addition overflows and panics in debug builds; use saturating arithmetic or test for the sentinel")
         r.ob(True, "", file, f["l"], "", sample=f"{f['name']}: sentinel variable(s) {sorted(seeds)} stay out of plain arithmetic")
     r.count("MAX-sentinel variables in the front end", n, 1, "abra_core/src/parse/lexer.rs")
+
+
+@rule("INDEX-OWN-BOUND", ["C04", "C34", "C18"], "a subscript that is range-tested is tested against the length of the table it indexes, not against a count that merely coincides with it for well-formed input")
+def index_own_bound(ctx, r):
+    n = 0
+    for file, f in _fns(ctx, r):
+        short = file.split("/")[-1]
+        for c in _walk_own(f["body"]):
+            if c["k"] != "If":
+                continue
+            cond = c["c"]
+            cmps = [y for y in q.walk(cond) if y["k"] == "Binary" and y["op"] in ("<", "<=", ">", ">=")]
+            for cmpn in cmps:
+                lo, hi = (cmpn["a"], cmpn["b"]) if cmpn["op"] in ("<", "<=") else (cmpn["b"], cmpn["a"])
+                if lo["k"] != "Path":
+                    continue
+                iv = lo["p"]
+                for y in q.walk(c["t"]):
+                    if y["k"] != "Index":
+                        continue
+                    idx = y["i"]
+                    while idx["k"] in ("Cast", "Paren"):
+                        idx = idx["e"]
+                    if not (idx["k"] == "Path" and idx["p"] == iv):
+                        continue
+                    base = q.show(y["e"])
+                    n += 1
+                    bound = q.show(hi).replace(" ", "")
+                    own = base.replace(" ", "") in bound and ("len()" in bound or "len" in bound)
+                    r.ob(own, f"{short}:{f['name']}:{base}[{iv}]:tested-against-another-count", file, y["l"],
+                         f"{f['name']}: `{base}[{q.show(y['i'])}]` is range-tested with `{q.show(cmpn)}`: the bound is not the length of `{base}`. The two agree for well-formed input only (e.g. a set of parameter *names* is shorter than the parameter list when a name is repeated), and the subscript panics on the rest",
+                         sample=f"{f['name']}: {base}[{iv}] under {q.show(cmpn)}")
+    r.count("range-tested subscripts in the front end", n, 2, "abra_core/src/statics/resolve.rs")
